@@ -119,16 +119,20 @@ int main(int argc, char** argv)
         o.obs = [](ps::Sim& sim, const ps::Snap& s) { return C28::PoolObs(sim, s); };
         o.script_coins = 4;
         o.base_blocks = 124;
-        o.classes = {"N", "N3", "C", "CV", "R", "RS", "D", "W", "NX", "M", "P", "T"};
+        o.classes = {"N", "C", "R", "RS", "D", "W", "NX", "M", "P", "T"};
         o.guarded = true;
-        o.fees = "zlmh";
+        o.prefill = 1;            // a non-empty pool in the root state: T / C / R / S are enabled from the start
+        o.fees = "lh";
         o.child_fees = "h";
-        o.thr = "bcd";
+        o.thr = "bd";
         o.max_idx = 1;
-        o.prio_minus = true; o.prio_next = true;
+        o.prio_minus = false; o.prio_next = true;
         o.depth_quick = 2; o.depth_thorough = 3;
         if (!vx::thorough()) return ps::Configs{{"", o}};
-        o.classes.insert("NL"); o.classes.insert("NQ"); o.classes.insert("NY"); o.classes.insert("I"); o.classes.insert("SB"); o.classes.insert("J");
+        for (const char* c : {"N3", "CV", "NL", "NQ", "NY", "I", "SB", "J"}) o.classes.insert(c);
+        o.fees = "zlmh";
+        o.thr = "bcd";
+        o.prio_minus = true;
         ps::Opts f = o;
         f.prefill = 13;
         f.base_blocks = 130;
